@@ -313,6 +313,41 @@ def invariance_config(h, mesh, n, perm=None, refine=False):
         for alpha in exps(d, n):
             h.zero('x^%s: same value on the %s mesh' % (alpha, 'refined' if perm is None else 'renumbered'),
                    S.Functional(mono(alpha), dtype=dt).assemble(b1) - S.Functional(mono(alpha), dtype=dt).assemble(b2))
+def rigid_config(h, mesh, spec, n):
+    """(e): mass and stiffness entries (exact rule of degree n) are invariant under a rigid motion x -> R x + d of the mesh, with R a
+    rotation given by (c, s), c^2 + s^2 == 1 (hypothesis), d symbolic."""
+    import skfem as S
+    from skfem.models.poisson import laplace, mass
+    with warnings.catch_warnings():
+        warnings.simplefilter('ignore')
+        m = make_mesh(h, mesh)
+        P, t = m.doflocs, np.asarray(m.t)
+        c = h.sym('rc', (), nominal=0.6)
+        s_ = h.sym('rs', (), nominal=0.8)
+        d = h.sym('rd', (2,), nominal=np.array([0.375, -0.625]))
+        hyp = [h.eq(c * c + s_ * s_, 1)]
+        P2 = np.array([[c * P[0, v] - s_ * P[1, v] + d[0] for v in range(P.shape[1])],
+                       [s_ * P[0, v] + c * P[1, v] + d[1] for v in range(P.shape[1])]], dtype=object if h.sym_mode else float)
+        m2 = type(m)(P2, t)
+        e = make_elem(spec)
+        dt = object if h.sym_mode else np.float64
+        X, W = rule_arrays(h, *lattice_rule(2, n))
+        b1, b2 = S.CellBasis(m, e, quadrature=(X, W)), S.CellBasis(m2, make_elem(spec), quadrature=(X, W))
+        h.sample(dict(mesh=mesh, element=spec, rule_degree=n))
+        for name, form in (('mass', mass.form), ('stiffness', laplace.form)):
+            if h.sym_mode:
+                (r1, c1), d1, _, _ = S.BilinearForm(form, dtype=dt)._assemble(b1)
+                (r2, c2), d2, _, _ = S.BilinearForm(form, dtype=dt)._assemble(b2)
+                h.concrete('%s: same triplet indices' % name, np.array_equal(r1, r2) and np.array_equal(c1, c2))
+                for k in range(0, len(d1), max(1, len(d1) // 24)):
+                    h.zero('%s entry %d is invariant under the rigid motion' % (name, k), d1[k] - d2[k], hyps=hyp)
+            else:
+                A1 = S.BilinearForm(form).assemble(b1).toarray()
+                A2 = S.BilinearForm(form).assemble(b2).toarray()
+                if abs(float(c) ** 2 + float(s_) ** 2 - 1) < 1e-9:
+                    h.zero('%s entry is invariant under the rigid motion' % name, A1 - A2, scale=max(1.0, np.abs(A1).max()))
+
+
 def build_configs(tier, seed):
     quick = tier == 'quick'
     cfgs = []
@@ -347,6 +382,9 @@ def build_configs(tier, seed):
     add('invariance/tri2/renumbered', invariance_config, mesh='tri2', n=2, perm=(2, 0, 3, 1))
     add('invariance/tri2/refined', invariance_config, mesh='tri2', n=2, refine=True)
     add('invariance/line3perm/refined', invariance_config, mesh='line3perm', n=3, refine=True)
+    add('rigid/tri1/ElementTriP1', rigid_config, mesh='tri1', spec='ElementTriP1', n=2, timeout=900)
+    if not quick:
+        add('rigid/tri2/ElementTriP2', rigid_config, mesh='tri2', spec='ElementTriP2', n=4, timeout=3000)
     if not quick:
         for perm in itertools.permutations(range(4)):
             add('invariance/tri2/perm=%s' % ''.join(map(str, perm)), invariance_config, mesh='tri2', n=2, perm=perm)
@@ -363,7 +401,7 @@ META = dict(
     symbolic='vertex coordinates; polynomial coefficients',
     bounds=dict(meshes='2-3 cell simplex meshes (tets/quads one free vertex), either orientation, cell subsets', degree='<= 4 (thorough 6) for the '
                        'identities; default tables: triangle orders 2..10 (thorough 0..13), tetrahedron 2..5 (1..9), segment'),
-    outside=['curved cells', 'hexahedra', 'rigid motions (not built)', 'Lagrange stiffness/load entries against rational values (only the mass sum)',
+    outside=['curved cells', 'hexahedra', 'Lagrange stiffness/load entries against rational values (only the mass sum)',
              'float rounding'],
     stubs=[],
     assumptions=['mesh validity'],
